@@ -3,6 +3,8 @@ package checks
 import (
 	"encoding/json"
 	"fmt"
+	"os"
+	"path/filepath"
 	"regexp"
 	"sort"
 	"strings"
@@ -409,7 +411,29 @@ func c17RunRules(channel string, ignoreAnalysis, ignoreErr []string) ([]c17Diag,
 			return nil, err
 		}
 	}
-	return c17View(s), nil
+	before := c17View(s)
+	// the rules must keep holding when the files change on disk afterwards: a comment is appended to every file
+	// (no diagnostic moves) and reported through the file watcher
+	var evs []drv.FileEvent
+	for f, txt := range c17Files {
+		if strings.HasSuffix(f, ".lua") {
+			os.WriteFile(filepath.Join(root, f), []byte(txt+"-- touched\n"), 0o644)
+			evs = append(evs, drv.FileEvent{Rel: f, Type: 2})
+		}
+	}
+	sort.Slice(evs, func(i, j int) bool { return evs[i].Rel < evs[j].Rel })
+	if err := s.Watched(evs); err != nil {
+		return nil, err
+	}
+	after := c17View(s)
+	if c17Keys(after) != c17Keys(before) {
+		// report the view after the events, tagged so that the classification shows where it came from
+		for k := range after {
+			after[k].Msg = "[after the watched-files event] " + after[k].Msg
+		}
+		return after, nil
+	}
+	return before, nil
 }
 
 func c17RuleSpace() *core.Space {
